@@ -6,24 +6,34 @@ Property theorems only (model: PyatvModel/C09/Model.lean, invariants: PyatvModel
 All of them quantify over EVERY event sequence (any length) over
   { protocol i reports lost(e) | closed, user close(), public API call m, push start/stop,
     protocol i posts a push update }
-and over ANY number of connected protocols, each of whose `close()` may re-entrantly emit any
-list of reports and return any number of tasks (`cfg.protos` is an arbitrary list).
-`WF cfg` says: `max_calls = 1` (value generated from the source), the shielded objects exist,
-and the listener the user registered has not been garbage-collected.
+over ANY number of connected protocols, each of whose `close()` may re-entrantly emit any list
+of reports and return any number of tasks (`cfg.protos` is an arbitrary list), and over ANY
+behaviour of the user's handlers: every report and every push update carries a `Beh` — the
+list of public-API calls and `close()` calls the handler makes from INSIDE the callback, and
+whether it then raises.  `WF cfg` says: `max_calls = 1` (value generated from the source), the
+shielded objects exist, and the listener the user registered has not been garbage-collected.
 
 * `notify_is_first_report`  what the DeviceListener has received so far is exactly the first
                             report made (nothing when no listener is set)
 * `notify_le_one`           … hence at most one notification, ever
 * `notify_never_changes`    the log is append-only: once delivered, nothing else follows
-* `blocked_after`           after close()/any report, every protected member raises BlockedStateError,
-                            whatever happens in between and afterwards
+* `blocked_after`           after close()/any report — also one whose handler raises or re-enters —
+                            every protected member raises BlockedStateError, whatever happens in
+                            between and afterwards
+* `callback_sees_blocked`   "after any report" includes the notification itself: every call made
+                            from inside the DeviceListener callback already saw BlockedStateError,
+                            and a close() from inside it got the cached set
 * `facade_members_protected` every public member of the generated facade table is protected
                             (tie A: `decide +kernel` over the table read from the source)
 * `blocked_after_facade`    the two combined, for the facade as generated
-* `close_idem`              a second close() returns the same set and changes nothing
+* `close_again`             close() on a closed/lost device returns the cached set, changes nothing
+* `close_idem`              a second close() returns the same set as the first
 * `close_same_forever`      … and so does every later close(), after any further events
-* `close_never_raises`      close() never raises (and the model never runs out of fuel)
-* `protocols_closed_once`   every protocol's close() runs exactly once, in order
+* `close_never_raises`      close() raises nothing of its own (and the model never runs out of
+                            fuel); at most it propagates the user's own handler's exception
+* `close_returns`           … which cannot happen when no close-time handler raises
+* `protocols_closed_once`   every protocol's close() runs at most once, in order — exactly once
+                            when no close-time handler raises
 * `push_stopped`            after close()/any report no push update reaches the user and
                             push_updater.start() is blocked
 -/
@@ -34,36 +44,27 @@ open PyatvModel.Gen.C09 (Row Guard)
 /-- state after the event sequence `evs`, from a freshly connected device -/
 abbrev after (cfg : Cfg) (evs : List Ev) : St := run cfg (init cfg) evs
 
-/-- member `m` of table `tbl` is protected against use after close (`n` shielded objects) -/
-def rowProtected (n : Nat) (tbl : List Row) (m : Row) : Bool :=
-  match m.guard with
-  | .guarded => decide (m.obj < n)
-  | .closeExempt => true
-  | .unguarded => false
-  | .derived via => !via.isEmpty && via.all fun j =>
-      match tbl[j]? with
-      | some mj => mj.guard == .guarded && decide (mj.obj < n)
-      | none => false
-
 theorem inv_after (cfg : Cfg) (wf : WF cfg) (evs : List Ev) : Inv cfg (after cfg evs) :=
   inv_run wf evs _ (inv_init cfg)
 
-/-- a history that contains a closing event (user close or any report) ends closed -/
+/-- a history that contains a closing event (user close or any report, whatever the user's
+    handler does) ends closed -/
 theorem closed_after (cfg : Cfg) (wf : WF cfg) (pre post : List Ev) (e : Ev)
     (he : e.isClosing = true) : Closed (after cfg (pre ++ e :: post)) := by
   unfold after
   rw [run_append]
-  exact closed_run cfg post _ (closed_of_closing wf (inv_after cfg wf pre) e he)
+  exact closed_run wf post _ (inv_step wf (inv_after cfg wf pre) e)
+    (closed_of_closing wf (inv_after cfg wf pre) e he)
 
 /-! ## reported once: the first one -/
 
 /-- **C09, notification.**  At every point of every history the calls received by the user's
     DeviceListener are: nothing if no report was made yet (or no listener is set), otherwise
     exactly the first report that was made — by whichever protocol, re-entrantly from inside
-    `close()` or not, and whether or not the user also closes. -/
+    `close()` or not, whether or not the user also closes, and whatever the handler does. -/
 theorem notify_is_first_report (cfg : Cfg) (wf : WF cfg) (evs : List Ev) :
     (after cfg evs).notified = firstOf cfg.listener (after cfg evs).reports :=
-  (inv_after cfg wf evs).notif
+  (inv_after cfg wf evs).1.notif
 
 theorem notify_alive (cfg : Cfg) (wf : WF cfg) (evs : List Ev) (hl : cfg.listener = .alive) :
     (after cfg evs).notified = (after cfg evs).reports.take 1 := by
@@ -98,47 +99,43 @@ theorem notify_never_changes (cfg : Cfg) (wf : WF cfg) (evs more : List Ev) (r :
 /-! ## final: every public member is blocked -/
 
 /-- **C09, blocked.**  After the user's close() or after any report — with anything before,
-    in between and after — every protected member raises BlockedStateError. -/
+    in between and after, and whatever the user's handler does when notified (return, call the
+    API, call close(), raise) — every protected member raises BlockedStateError. -/
 theorem blocked_after (cfg : Cfg) (wf : WF cfg) (pre post : List Ev) (e : Ev)
     (he : e.isClosing = true) (m : Row) (hm : rowProtected cfg.nObjs cfg.members m = true)
     (hx : m.guard ≠ .closeExempt) :
     apiBlocked cfg (after cfg (pre ++ e :: post)) m = true := by
   obtain ⟨x, hx'⟩ := closed_after cfg wf pre post e he
-  have hsh := ((inv_after cfg wf (pre ++ e :: post)).closed x hx').1
-  have hb : ∀ o, o < cfg.nObjs → isBlocking (after cfg (pre ++ e :: post)) o = true :=
-    fun o ho => isBlocking_closed _ cfg.nObjs o hsh ho
-  unfold rowProtected at hm
-  unfold apiBlocked
-  cases hg : m.guard with
-  | guarded =>
-    rw [hg] at hm
-    exact hb _ (by simpa using hm)
-  | closeExempt => exact absurd hg hx
-  | unguarded => rw [hg] at hm; simp at hm
-  | derived via =>
-    rw [hg] at hm
-    simp only [Bool.and_eq_true, Bool.not_eq_true', List.all_eq_true] at hm
-    obtain ⟨hne, hall⟩ := hm
-    cases via with
-    | nil => simp at hne
-    | cons j js =>
-      simp only [List.any_cons, Bool.or_eq_true]
-      left
-      have hj := hall j (by simp)
-      cases hrow : cfg.members[j]? with
-      | none => rw [hrow] at hj; simp at hj
-      | some mj =>
-        rw [hrow] at hj
-        simp only [Bool.and_eq_true, decide_eq_true_eq] at hj
-        simp only [hj.1, Bool.true_and]
-        exact hb _ hj.2
+  exact apiBlocked_of_closed cfg _ m ((inv_after cfg wf (pre ++ e :: post)).1.closed x hx').1 hm hx
+
+/-- the case the suite never exercises, spelled out: the handler raises -/
+theorem blocked_after_raising_handler (cfg : Cfg) (wf : WF cfg) (pre post : List Ev) (i : Nat)
+    (k : Kind) (inner : List InEv) (m : Row)
+    (hm : rowProtected cfg.nObjs cfg.members m = true) (hx : m.guard ≠ .closeExempt) :
+    apiBlocked cfg (after cfg (pre ++ .report i k ⟨inner, true⟩ :: post)) m = true :=
+  blocked_after cfg wf pre post _ rfl m hm hx
 
 /-- as the user sees it: the API event answers `blocked` -/
 theorem blocked_after_step (cfg : Cfg) (wf : WF cfg) (pre post : List Ev) (e : Ev)
     (he : e.isClosing = true) (i : Nat) (m : Row) (hi : cfg.members[i]? = some m)
     (hm : rowProtected cfg.nObjs cfg.members m = true) (hx : m.guard ≠ .closeExempt) :
     (step cfg (after cfg (pre ++ e :: post)) (.api i)).2 = .blocked := by
-  simp only [step, hi, blocked_after cfg wf pre post e he m hm hx, if_true]
+  simp only [step, apiOut, hi, blocked_after cfg wf pre post e he m hm hx, if_true]
+
+/-- **C09, blocked inside the notification.**  "After any protocol reports" includes the
+    callback that delivers the report: in every history, every public-API call the user's
+    DeviceListener handler made from inside its callback saw BlockedStateError (for every
+    protected member), and every close() it made there returned the cached task set.  This
+    holds for reports made by a protocol callback and for reports a protocol makes while the
+    user's own close() is closing it. -/
+theorem callback_sees_blocked (cfg : Cfg) (wf : WF cfg) (evs : List Ev) :
+    ∀ e ∈ (after cfg evs).inner, e.1 = true →
+      match e.2.1 with
+      | .api m => ∀ row, cfg.members[m]? = some row →
+          rowProtected cfg.nObjs cfg.members row = true → row.guard ≠ .closeExempt →
+            e.2.2 = .blocked
+      | .close => ∃ x n, e.2.2 = .set x n :=
+  fun e he => (inv_after cfg wf evs).1.inner e he
 
 /-- **Tie A.**  Every public member that the `pyatv.interface` classes declare is, on the
     facade classes of the source tree under test, wrapped by `shield.guard` (or is
@@ -164,74 +161,93 @@ theorem blocked_after_facade (l : Listener) (hl : l ≠ .dead) (protos : List Pr
 
 /-! ## close() again -/
 
-/-- what close() returns after any history: the cached set, never an exception -/
-theorem userClose_spec (cfg : Cfg) (wf : WF cfg) (s : St) (h : Inv cfg s) :
-    ∃ x, (closeF cfg topFuel s).pending = some x ∧
-      step cfg s .userClose = (closeF cfg topFuel s, .set x (closeF cfg topFuel s).tasks) := by
-  obtain ⟨x, hx⟩ := closed_of_closing wf h .userClose rfl
-  have hinv := inv_step wf h .userClose
-  have hx' : (closeF cfg topFuel s).pending = some x := by
-    simp only [step] at hx
-    split at hx <;> (try split at hx) <;> exact hx
-  have hr : (closeF cfg topFuel s).raised = false := by
-    have := hinv.raised
-    simp only [step] at this
-    split at this <;> (try split at this) <;> exact this
-  exact ⟨x, hx', by simp [step, hx', hr]⟩
+/-- close() on a device that is already closed: the cached set, nothing changes, no exception -/
+theorem close_cached (cfg : Cfg) (s : St) (x : Nat) (h : Inv cfg s) (hp : s.pending = some x) :
+    step cfg s .userClose = (s, .set x s.tasks) := by
+  have hc : closeF cfg topFuel s = s := closeF_cached cfg 1 s x hp
+  simp [step, hc, h.2, closeOut, hp, h.1.raised]
 
-/-- **C09, close is idempotent.**  After any history, close() followed by close(): the second
-    call returns exactly what the first returned and leaves the state untouched. -/
-theorem close_idem (cfg : Cfg) (wf : WF cfg) (evs : List Ev) :
+/-- **C09, close() can be called again safely.**  After the user's close() or any report, and
+    anything after that: close() returns the cached task set, does not raise, and leaves the
+    state exactly as it was. -/
+theorem close_again (cfg : Cfg) (wf : WF cfg) (pre post : List Ev) (e : Ev)
+    (he : e.isClosing = true) :
+    ∃ x, (after cfg (pre ++ e :: post)).pending = some x ∧
+      step cfg (after cfg (pre ++ e :: post)) .userClose
+        = (after cfg (pre ++ e :: post), .set x (after cfg (pre ++ e :: post)).tasks) := by
+  obtain ⟨x, hx⟩ := closed_after cfg wf pre post e he
+  exact ⟨x, hx, close_cached cfg _ x (inv_after cfg wf _) hx⟩
+
+/-- **C09, close is idempotent.**  After any history, when close() returned a set, the next
+    close() returns exactly that and changes nothing. -/
+theorem close_idem (cfg : Cfg) (wf : WF cfg) (evs : List Ev) (x n : Nat)
+    (h : (step cfg (after cfg evs) .userClose).2 = .set x n) :
     step cfg (step cfg (after cfg evs) .userClose).1 .userClose
-      = step cfg (after cfg evs) .userClose := by
-  obtain ⟨x, hx, heq⟩ := userClose_spec cfg wf _ (inv_after cfg wf evs)
-  have hinv' := inv_step wf (inv_after cfg wf evs) .userClose
-  rw [heq] at hinv' ⊢
-  obtain ⟨y, hy, heq'⟩ := userClose_spec cfg wf _ hinv'
-  have hc : closeF cfg topFuel (closeF cfg topFuel (after cfg evs)) = closeF cfg topFuel (after cfg evs) :=
-    closeF_cached cfg 1 _ x hx
-  rw [heq']
-  simp only [hc] at hy ⊢
-  rw [hx] at hy
-  cases hy
-  rfl
+      = ((step cfg (after cfg evs) .userClose).1, .set x n) := by
+  have hinv := inv_after cfg wf evs
+  have hinv' := inv_step wf hinv .userClose
+  obtain ⟨y, hy⟩ := closed_of_closing wf hinv .userClose rfl
+  rw [close_cached cfg _ y hinv' hy]
+  -- the first close() returned what is cached now
+  obtain ⟨h', _, _⟩ := inv_close wf hinv
+  simp only [step] at h hy ⊢
+  split at h
+  · simp at h
+  · rename_i hnf
+    simp only [hnf, Bool.false_eq_true, if_false] at hy ⊢
+    simp only [closeOut, hy, h'.raised, Bool.false_eq_true, if_false] at h
+    simp only [Out.set.injEq] at h
+    rw [h.1, h.2]
 
 /-- **C09, same pending tasks forever.**  Once close() has returned set `x` with `n` tasks,
-    every later close() — after any further reports, API calls, pushes, closes — returns the
-    same set with the same tasks. -/
+    every later close() — after any further reports, API calls, pushes, closes, handlers —
+    returns the same set with the same tasks. -/
 theorem close_same_forever (cfg : Cfg) (wf : WF cfg) (evs more : List Ev) (x n : Nat)
     (h : (step cfg (after cfg evs) .userClose).2 = .set x n) :
     (step cfg (after cfg (evs ++ .userClose :: more)) .userClose).2 = .set x n := by
-  obtain ⟨y, hy, heq⟩ := userClose_spec cfg wf _ (inv_after cfg wf evs)
-  rw [heq] at h
-  obtain ⟨hyx, htn⟩ : y = x ∧ (closeF cfg topFuel (after cfg evs)).tasks = n := by
-    simpa using h
-  subst hyx
+  have hinv := inv_after cfg wf evs
+  have hinv1 := inv_step wf hinv .userClose
+  have h1 := close_idem cfg wf evs x n h
+  obtain ⟨y, hy⟩ := closed_of_closing wf hinv .userClose rfl
+  rw [close_cached cfg _ y hinv1 hy] at h1
+  have hyx : y = x ∧ (step cfg (after cfg evs) .userClose).1.tasks = n := by
+    have := congrArg Prod.snd h1
+    simpa using this
   have hrun : after cfg (evs ++ .userClose :: more)
-      = run cfg (closeF cfg topFuel (after cfg evs)) more := by
+      = run cfg (step cfg (after cfg evs) .userClose).1 more := by
     unfold after
     rw [run_append]
-    simp only [run, heq]
-  obtain ⟨hp, ht, _⟩ := run_closed_frame cfg more _ y hy
-  obtain ⟨z, hz, heq'⟩ := userClose_spec cfg wf _ (inv_after cfg wf (evs ++ .userClose :: more))
-  rw [heq']
-  have hc : closeF cfg topFuel (after cfg (evs ++ .userClose :: more))
-      = after cfg (evs ++ .userClose :: more) :=
-    closeF_cached cfg 1 _ y (by rw [hrun]; exact hp)
-  rw [hc] at hz ⊢
-  rw [hrun] at hz ⊢
-  rw [hp] at hz
-  cases hz
-  rw [ht, htn]
+    rfl
+  have hsame := run_closed_frame wf more _ y hinv1 hy
+  have hp : (after cfg (evs ++ .userClose :: more)).pending = some y := by
+    rw [hrun, hsame.1]; exact hy
+  rw [close_cached cfg _ y (inv_after cfg wf _) hp]
+  show Out.set y (after cfg (evs ++ .userClose :: more)).tasks = .set x n
+  rw [hrun, hsame.2.1, hyx.1, hyx.2]
 
-/-- **C09, close never raises** — neither InvalidStateError from `shield.block`, nor
-    BlockedStateError from its own `self.push_updater.stop()`, nor unbounded re-entrancy
-    (the model's fuel never runs out): the `raised` flag is never set. -/
+/-- **C09, close raises nothing of its own** — neither InvalidStateError from `shield.block`,
+    nor BlockedStateError from its own `self.push_updater.stop()`, nor unbounded re-entrancy
+    (the model's fuel never runs out).  The only exception that can come out of close() is the
+    one the user's own DeviceListener handler raised when a protocol reported while being
+    closed (`userRaised`); the device is closed and blocked all the same (`blocked_after`). -/
 theorem close_never_raises (cfg : Cfg) (wf : WF cfg) (evs : List Ev) :
-    (after cfg evs).raised = false ∧ ∃ x n, (step cfg (after cfg evs) .userClose).2 = .set x n := by
-  refine ⟨(inv_after cfg wf evs).raised, ?_⟩
-  obtain ⟨x, _, heq⟩ := userClose_spec cfg wf _ (inv_after cfg wf evs)
-  exact ⟨x, _, by rw [heq]⟩
+    (after cfg evs).raised = false ∧
+      ((∃ x n, (step cfg (after cfg evs) .userClose).2 = .set x n) ∨
+        (step cfg (after cfg evs) .userClose).2 = .userRaised) := by
+  have hinv := inv_after cfg wf evs
+  refine ⟨hinv.1.raised, ?_⟩
+  obtain ⟨h', ⟨x, hx⟩, _⟩ := inv_close wf hinv
+  simp only [step]
+  split
+  · right; rfl
+  · left; exact ⟨x, (closeF cfg topFuel (after cfg evs)).tasks, by simp [closeOut, hx, h'.raised]⟩
+
+/-- … and when no handler raises for a report made at close time, close() returns -/
+theorem close_returns (cfg : Cfg) (wf : WF cfg) (hb : BenignProtos cfg) (evs : List Ev) :
+    ∃ x n, (step cfg (after cfg evs) .userClose).2 = .set x n := by
+  have hinv := inv_after cfg wf evs
+  obtain ⟨h', ⟨x, hx⟩, hfl⟩ := inv_close wf hinv
+  exact ⟨x, (closeF cfg topFuel (after cfg evs)).tasks, by simp [step, hfl hb, closeOut, hx, h'.raised]⟩
 
 /-- the `raised` flag is sticky (for every configuration): so `close_never_raises` at the end of
     a history covers every close() — top-level or re-entrant — inside that history -/
@@ -241,61 +257,108 @@ theorem raised_sticky (cfg : Cfg) (evs more : List Ev) (h : (after cfg evs).rais
   rw [run_append]
   exact (run_grows cfg more _).2.2 h
 
-/-- **C09, protocols are closed exactly once**, in registration order, however many times
-    close() is called and however many reports arrive; not at all while the device is open. -/
+/-- **C09, protocols are closed at most once**, in registration order, however many times
+    close() is called and however many reports arrive; not at all while the device is open;
+    every one of them exactly once unless a user handler raised into the closing loop. -/
 theorem protocols_closed_once (cfg : Cfg) (wf : WF cfg) (evs : List Ev) :
-    (after cfg evs).closeLog =
-      if (after cfg evs).pending.isSome then List.range' 0 cfg.protos.length else [] := by
-  have h := inv_after cfg wf evs
-  cases hp : (after cfg evs).pending with
-  | none => simpa using (h.opened hp).2.1
-  | some x => simpa using (h.closed x hp).2.2
+    ((after cfg evs).pending = none → (after cfg evs).closeLog = []) ∧
+      (after cfg evs).closeLog <+: List.range' 0 cfg.protos.length ∧
+      (BenignProtos cfg → (after cfg evs).pending.isSome →
+        (after cfg evs).closeLog = List.range' 0 cfg.protos.length) := by
+  have h := (inv_after cfg wf evs).1
+  refine ⟨fun hp => (h.opened hp).2.1, ?_, ?_⟩
+  · cases hp : (after cfg evs).pending with
+    | none => rw [(h.opened hp).2.1]; exact List.nil_prefix
+    | some x => exact (h.closed x hp).2.2.1
+  · intro hb hs
+    cases hp : (after cfg evs).pending with
+    | none => rw [hp] at hs; simp at hs
+    | some x => exact (h.closed x hp).2.2.2 hb
 
 /-! ## push updates stop -/
 
 /-- **C09, push updates stop.**  After the user's close() or any report: the protocols' push
-    updaters no longer forward to the facade, an update posted by any protocol reaches nobody,
-    and `push_updater.start()` is blocked (so it stays that way). -/
+    updaters no longer forward to the facade, an update posted by any protocol reaches nobody
+    (so no PushListener handler runs), and `push_updater.start()` is blocked. -/
 theorem push_stopped (cfg : Cfg) (wf : WF cfg) (pre post : List Ev) (e : Ev)
     (he : e.isClosing = true) :
     let s := after cfg (pre ++ e :: post)
-    s.pushOn = false ∧ (∀ i, (step cfg s (.push i)).2 = .delivered false) ∧
+    s.pushOn = false ∧ (∀ i b, step cfg s (.push i b) = (s, .delivered false)) ∧
       step cfg s .pushStart = (s, .blocked) := by
   intro s
   obtain ⟨x, hx⟩ := closed_after cfg wf pre post e he
-  obtain ⟨hsh, hpo, _⟩ := (inv_after cfg wf (pre ++ e :: post)).closed x hx
+  obtain ⟨hsh, hpo, _⟩ := (inv_after cfg wf (pre ++ e :: post)).1.closed x hx
   refine ⟨hpo, ?_, ?_⟩
-  · intro i
-    show Out.delivered (s.pushOn && i == 0) = .delivered false
-    rw [show s.pushOn = false from hpo]; rfl
+  · intro i b
+    simp only [step, show s.pushOn = false from hpo, Bool.false_and, Bool.false_eq_true, if_false]
   · have := isBlocking_closed s cfg.nObjs cfg.pushObj hsh wf.push
     simp only [step, this, if_true]
 
 /-! ## Non-vacuity and sharpness -/
 
+/-- a handler that just returns -/
+abbrev ret : Beh := ⟨[], false⟩
+
 /-- `WF` is met by the generated facade with a live listener and three protocols whose
     close() reports re-entrantly -/
-example : WF (facadeCfg .alive [⟨[.closed], 1⟩, ⟨[], 0⟩, ⟨[.lost 2, .closed], 2⟩]) :=
+example : WF (facadeCfg .alive [⟨[(.closed, ret)], 1⟩, ⟨[], 0⟩, ⟨[(.lost 2, ret), (.closed, ⟨[.api 10], true⟩)], 2⟩]) :=
   facade_wf _ (by decide) _
 
 /-- a concrete history: protocol 1 loses the connection, closing protocol 0 and 2 provokes
     three more reports, the user closes twice, protocol 0 reports again — one notification,
     the first; same set both times; everything blocked -/
 example :
-    let cfg := facadeCfg .alive [⟨[.closed], 1⟩, ⟨[], 0⟩, ⟨[.lost 2, .closed], 2⟩]
-    let evs := [Ev.pushStart, .push 0, .report 1 (.lost 3), .push 0, .api 10, .userClose, .userClose,
-                .report 0 .closed]
+    let cfg := facadeCfg .alive [⟨[(.closed, ret)], 1⟩, ⟨[], 0⟩, ⟨[(.lost 2, ret), (.closed, ret)], 2⟩]
+    let evs := [Ev.pushStart, .push 0 ret, .report 1 (.lost 3) ret, .push 0 ret, .api 10, .userClose,
+                .userClose, .report 0 .closed ret]
     outputs cfg (init cfg) evs
         = [.pass, .delivered true, .none, .delivered false, .blocked, .set 0 4, .set 0 4, .none] ∧
       (after cfg evs).notified = [⟨1, .lost 3⟩] ∧ (after cfg evs).reports.length = 5 ∧
       (after cfg evs).closeLog = [0, 1, 2] := by
   decide
 
+/-- the handler uses the API and close() from inside the callback, then raises: the calls saw
+    `blocked` / the cached set, the exception reaches the reporting protocol, the device is
+    closed, and the user's later close() returns the same set -/
+example :
+    let cfg := facadeCfg .alive [⟨[], 1⟩, ⟨[(.closed, ret)], 0⟩]
+    let evs := [Ev.report 0 (.lost 1) ⟨[.api 10, .api 28, .close], true⟩, .api 10, .userClose]
+    outputs cfg (init cfg) evs = [.escaped, .blocked, .set 0 2] ∧
+      (after cfg evs).inner = [(true, .api 10, .blocked), (true, .api 28, .blocked), (true, .close, .set 0 2)] ∧
+      (after cfg evs).notified = [⟨0, .lost 1⟩] ∧ (after cfg evs).closeLog = [0, 1] := by
+  decide
+
+/-- the user closes; protocol 0 reports while being closed and the user's handler (which first
+    probes the API) raises: close() propagates that exception, protocol 1 is not reached — but
+    the device is blocked (the probe already saw it) and the next close() returns the set -/
+example :
+    let cfg := facadeCfg .alive [⟨[(.closed, ⟨[.api 10], true⟩)], 1⟩, ⟨[], 1⟩]
+    let evs := [Ev.userClose, .api 28, .userClose]
+    outputs cfg (init cfg) evs = [.userRaised, .blocked, .set 0 1] ∧
+      (after cfg evs).inner = [(true, .api 10, .blocked)] ∧ (after cfg evs).closeLog = [0] := by
+  decide
+
+/-- a PushListener handler that closes the device from inside a push callback -/
+example :
+    let cfg := facadeCfg .alive [⟨[(.closed, ret)], 1⟩]
+    let evs := [Ev.pushStart, .push 0 ⟨[.api 10, .close, .api 10], true⟩, .push 0 ret]
+    outputs cfg (init cfg) evs = [.pass, .delivered true, .delivered false] ∧
+      (after cfg evs).inner = [(false, .api 10, .pass), (false, .close, .set 0 2), (false, .api 10, .blocked)] := by
+  decide
+
 /-- the user closes first: the first report is the one protocol 0 makes while being closed -/
 example :
-    let cfg := facadeCfg .alive [⟨[.closed], 1⟩, ⟨[.lost 7], 0⟩]
-    (after cfg [.userClose, .report 1 (.lost 3)]).notified = [⟨0, .closed⟩] := by
+    let cfg := facadeCfg .alive [⟨[(.closed, ret)], 1⟩, ⟨[(.lost 7, ret)], 0⟩]
+    (after cfg [.userClose, .report 1 (.lost 3) ret]).notified = [⟨0, .closed⟩] := by
   decide
+
+/-- `BenignProtos` is met by protocols whose close-time handlers do not raise -/
+example : BenignProtos (facadeCfg .alive [⟨[(.closed, ⟨[.api 10, .close], false⟩)], 1⟩, ⟨[], 0⟩]) := by
+  intro p hp rb hrb
+  simp [facadeCfg] at hp
+  rcases hp with rfl | rfl
+  · simp at hrb; rw [hrb]
+  · simp at hrb
 
 /-- `rowProtected` is a real condition: an unguarded member is not protected, and a table
     containing one is rejected -/
@@ -304,15 +367,15 @@ example : rowProtected 12 [⟨2, "RemoteControl.menu", .unguarded⟩] ⟨2, "Rem
 /-- sharpness of `max_calls = 1`: with `max_calls = 2` a loss followed by the report that closing
     provokes notifies the listener twice -/
 example :
-    let cfg : Cfg := { facadeCfg .alive [⟨[.closed], 1⟩] with maxCalls := 2 }
-    (after cfg [.report 0 (.lost 1)]).notified.length = 2 := by
+    let cfg : Cfg := { facadeCfg .alive [⟨[(.closed, ret)], 1⟩] with maxCalls := 2 }
+    (after cfg [.report 0 (.lost 1) ret]).notified.length = 2 := by
   decide
 
 /-- sharpness of `WF.live` (outside the property's quantifier, recorded as an observation by the
     harness): with a garbage-collected listener a report does not close the device -/
 example :
     let cfg := facadeCfg .dead [⟨[], 1⟩]
-    (step cfg (after cfg [.report 0 .closed]) (.api 10)).2 = .pass := by
+    (step cfg (after cfg [.report 0 .closed ret]) (.api 10)).2 = .pass := by
   decide
 
 end PyatvModel.Props.C09
